@@ -162,6 +162,7 @@ func (w *World) bindNames() {
 		"yaml":         "go.yaml.in/yaml/v4",
 		"json":         "encoding/json",
 		"k8syaml":      "sigs.k8s.io/yaml",
+		"url":          "net/url",
 		"main":         modPath + "/cmd/protoc-gen-openapiv3", // the only plugin main with logic of its own
 		"pluginpb":     "google.golang.org/protobuf/types/pluginpb",
 		"time":         "time",
